@@ -102,3 +102,9 @@ claim("C08", "other",
       "Structural clauses of `position`: a scratch board built from the start position or from_fen and never from the session board; a single commit `self.board = scratch` after the move loop, on every Ok path and no Err path, with a rejected move leading to an Err that bypasses it; exact-equality lookup of each token among the legal moves and the matched move played on the scratch board for all tokens in order; {start}{dest}+q/r/b/n notation; FEN = tokens 1..7, moves after the `moves` keyword; error propagation, ucinewgame, and go searching the session board. Holds for every move list and command order because it holds for every path.",
       "the legal-move list (C01) and the move application (C03) are decided elsewhere / not here.",
       "static analysis: who-may-write + dominance + symbolic slices + token-slice constraints over rustc MIR", "DESIGN.md section 3 C08")
+
+
+claim("C01", "other",
+      "FIDE-exactness of the generated set for all positions is value-level and NOT decided. Decided are the structural clauses behind the rare-combination failures the property names: retain-by-is_legal_move filter; the probe testing the mover's king between make and unmake; check/attacker mirror tables; castling = rights && empty path && unattacked path for the same kind, refused on the wrong turn; the eight castling masks equal the FIDE squares (b1/b8 may be attacked) with Black = White << 56; the four castling moves and both rook tables; pawn direction/rank table with its mirror, double push, two guarded en-passant captures, four promotions on the back rank; Kind dispatch; capture annotation; full 0..64 square loops.",
+      "pseudo-legal set exactness, pins/evasions by value, duplicates and mate/stalemate recognition are not decided; attack tables are C06.",
+      "static analysis: decision-table extraction + constants vs FIDE oracle + dominance over rustc MIR", "DESIGN.md section 3 C01")
